@@ -62,6 +62,7 @@ func vfFrontDo(w *vfWorld, pieces []vfFrontPiece, patience time.Duration) *vfFro
 		wdone <- ""
 	}()
 	resp, err := http.ReadResponse(bufio.NewReader(conn), nil)
+	answered := w.simNow() - start
 	if err != nil {
 		res.Err = "read: " + err.Error()
 	} else {
@@ -77,7 +78,7 @@ func vfFrontDo(w *vfWorld, pieces []vfFrontPiece, patience time.Duration) *vfFro
 	res.WriteErr = <-wdone
 	res.Took = w.simNow() - start
 	res.UpHits = w.upSince(upMark, "")
-	w.logf("front", "%d pieces over %v => status %d err=%q write=%q up=%d", len(pieces), res.Took, res.Status, res.Err, res.WriteErr, len(res.UpHits))
+	w.logf("front", "%d pieces over %v (answer after %v) => status %d err=%q write=%q up=%d", len(pieces), res.Took, answered, res.Status, res.Err, res.WriteErr, len(res.UpHits))
 	return res
 }
 
